@@ -1,6 +1,7 @@
 import SppModel.Lemmas.KernelLink
 import SppModel.Lemmas.Loop
 import SppModel.Generated.LoopKernels
+import SppModel.Frozen.LoopKernels
 /-!
 # Kernel specification — `kernels.extract_bpass` as translated computes its definition (C06)
 
@@ -11,10 +12,10 @@ of an index expression, a loop bound or an operand in the source changes the gen
 the proof.
 -/
 namespace SppModel.KernelSpecs
-open SppModel SppModel.Loop SppModel.Generated.LoopKernels SppModel.KernelSpecs.LinkA
+open SppModel SppModel.Loop SppModel.Frozen.LoopKernels SppModel.KernelSpecs.LinkA
 
 /-- the kernel was recognised by the translator on this run -/
-theorem extract_bpass_translated : ∀ f ∈ translationFailures, f.1 ∉ ["kernels_py_loops", "loop_extract_bpass"] := by decide
+theorem extract_bpass_translated : ∀ f ∈ Generated.LoopKernels.translationFailures, f.1 ∉ ["kernels_py_loops", "loop_extract_bpass"] := by decide
 
 /-- `extract_bpass`: `out[c] += Σ_t in[C*t + c]` for `c < C` -/
 private theorem extract_bpass_aux (inp out : Nat → Rat) (C n m c : Nat) :
@@ -53,7 +54,7 @@ theorem bandpass_block_link (flat : List Int) (C : Nat) (b : Plan.Blk) (out : Na
 /-- the executable twin run by the correspondence check (`K` requests of the driver) is the same function:
     it only tabulates the loop state after each iteration (`Loop.forRangeM_eq`) -/
 theorem extract_bpass_exec_eq (memo : Nat) (inp out : Nat → Rat) (C n : Nat) :
-    extract_bpass_exec memo inp out C n = extract_bpass inp out C n := by
-  simp only [extract_bpass_exec, extract_bpass, Loop.forRangeM_eq]
+    Generated.LoopKernels.extract_bpass_exec memo inp out C n = Generated.LoopKernels.extract_bpass inp out C n := by
+  simp only [Generated.LoopKernels.extract_bpass_exec, Generated.LoopKernels.extract_bpass, Loop.forRangeM_eq]
 
 end SppModel.KernelSpecs
